@@ -331,6 +331,8 @@ class Fn:
             return "(String.eqb %s %s)" % (a, b), BOOL
         if ta == IDL and tb == IDL and op is ast.Eq:
             return "(idl_eqb %s %s)" % (a, b), BOOL
+        if ta == IDL and tb == IDL and op is ast.NotEq:
+            return "(negb (idl_eqb %s %s))" % (a, b), BOOL
         raise TranslateError("%s: comparison %s on (%s, %s)" % (self.name, op.__name__, ta, tb))
 
     def subscript(self, node, env, binds):
@@ -1358,6 +1360,35 @@ def frag_reweight_samples(fn):
     return [ast.fix_missing_locations(a), ast.fix_missing_locations(r)]
 
 
+def frag_correlate_replica(fn):
+    """correlate: what happens to one replica -- the two checks of the validation loop (sample counts, configuration lists) and the
+    statement of the second loop that builds the samples of the result, as one function of that replica's data."""
+    import copy
+    loops = [x for x in fn.body if isinstance(x, ast.For) and isinstance(x.target, ast.Name) and x.target.id == "name"]
+    if len(loops) != 2 or _d(loops[0].iter) != _d(ast.parse("obs_a.names", mode="eval").body) \
+            or _d(loops[1].iter) != _d(ast.parse("sorted(obs_a.names)", mode="eval").body):
+        raise TranslateError("correlate: the validation loop over obs_a.names and the sample loop over sorted(obs_a.names) were not found")
+    if fn.body.index(loops[0]) > fn.body.index(loops[1]):
+        raise TranslateError("correlate: validation does not precede the construction of the samples")
+    checks = loops[0].body
+    if len(checks) != 2 or not all(isinstance(c, ast.If) and not c.orelse and len(c.body) == 1 and isinstance(c.body[0], ast.Raise) for c in checks):
+        raise TranslateError("correlate: the validation loop is not two `if ...: raise` statements")
+    app = [st for st in loops[1].body if isinstance(st, ast.Expr) and isinstance(st.value, ast.Call) and _d(st.value.func) == _d(ast.parse("new_samples.append", mode="eval").body)]
+    idl = [st for st in loops[1].body if isinstance(st, ast.Expr) and isinstance(st.value, ast.Call) and _d(st.value.func) == _d(ast.parse("new_idl.append", mode="eval").body)]
+    if len(loops[1].body) != 2 or len(app) != 1 or len(idl) != 1 or _d(idl[0].value.args[0]) != _d(ast.parse("obs_a.idl[name]", mode="eval").body):
+        raise TranslateError("correlate: the sample loop is not `new_samples.append(..); new_idl.append(obs_a.idl[name])`")
+    ren = _Rename({"obs_a.shape[name]": "ashape", "obs_b.shape[name]": "bshape", "obs_a.idl[name]": "aidl", "obs_b.idl[name]": "bidl",
+                   "obs_a.deltas[name]": "adeltas", "obs_b.deltas[name]": "bdeltas", "obs_a.r_values[name]": "ar", "obs_b.r_values[name]": "br"})
+    out = []
+    for c in checks:
+        out.append(ast.If(test=ren.visit(copy.deepcopy(c.test)), body=[ast.Raise(exc=ast.Call(func=ast.Name(id="ValueError", ctx=ast.Load()), args=[], keywords=[]), cause=None)], orelse=[])
+                   if isinstance(c.body[0].exc, ast.Call) and isinstance(c.body[0].exc.func, ast.Name) and c.body[0].exc.func.id == "ValueError" else None)
+    if None in out:
+        raise TranslateError("correlate: a validation failure does not raise ValueError")
+    out.append(ast.Return(value=ren.visit(copy.deepcopy(app[0].value.args[0]))))
+    return [ast.fix_missing_locations(st) for st in out]
+
+
 def frag_window_search(fn):
     """Obs.gamma_method: the automatic-windowing loop `for n in range(1, w_max): if g_w[n - 1] < 0 or n >= w_max - 1: ...; break`.
     The fragment is the search itself: which n the loop stops at (its body up to `break` is the bookkeeping of that n)."""
@@ -1519,6 +1550,9 @@ SIGS = [
     dict(coq="reweight_samples", py="reweight", fragment=frag_reweight_samples, params=[], ret=ARR, needs=["_reduce_deltas"],
          extra_params=[("v_wdeltas", ARR), ("v_widl", IDL), ("v_wr", FLOAT), ("v_odeltas", ARR), ("v_oidl", IDL), ("v_orv", FLOAT)],
          env={"wdeltas": ARR, "widl": IDL, "wr": FLOAT, "odeltas": ARR, "oidl": IDL, "orv": FLOAT}),
+    dict(coq="correlate_replica", py="correlate", fragment=frag_correlate_replica, params=[], ret=ARR,
+         extra_params=[("v_ashape", INT), ("v_bshape", INT), ("v_aidl", IDL), ("v_bidl", IDL), ("v_adeltas", ARR), ("v_ar", FLOAT), ("v_bdeltas", ARR), ("v_br", FLOAT)],
+         env={"ashape": INT, "bshape": INT, "aidl": IDL, "bidl": IDL, "adeltas": ARR, "ar": FLOAT, "bdeltas": ARR, "br": FLOAT}),
     dict(coq="_expand_deltas_for_merge", py="_expand_deltas_for_merge",
          params=[("deltas", ARR), ("idx", IDL), ("shape", INT), ("new_idx", IDL), ("scalefactor", FLOAT)], ret=ARR),
 ]
